@@ -72,6 +72,7 @@ func (configer) Config() *blobserver.Config {
 type execState struct {
 	env   *stores.Env
 	sto   blobserver.Storage
+	root  *stores.Node
 	hubN  int
 	inner func([]string) string // c01 interpreter for cfg and reads
 }
@@ -141,7 +142,7 @@ func (st *execState) exec(w []string) string {
 			env.Close()
 			return "bad-op"
 		}
-		st.env, st.sto = env, s
+		st.env, st.sto, st.root = env, s, n
 		st.hubN = 0
 		blobserver.GetHub(s).AddReceiveHook(func(blob.SizedRef) error { st.hubN++; return nil })
 		return "ok"
@@ -253,7 +254,7 @@ func (st *execState) exec(w []string) string {
 	if st.sto == nil {
 		return "bad-op"
 	}
-	return c01.ExecOn(st.sto, w)
+	return c01.ExecOnTree(st.env, st.root, st.sto, w)
 }
 
 // NewExec returns a fresh interpreter of the c02 protocol.
@@ -404,6 +405,7 @@ type caseRun struct {
 	r        *hk.Run
 	ex       func([]string) string
 	accepted map[string][]byte
+	removed  map[string][]byte // refs held once and removed since (through the store under test)
 	label    string
 }
 
@@ -457,14 +459,60 @@ func Run(r *hk.Run) {
 		n, _, _ := c01.ParseTree(strings.Fields(spec))
 		tok, _ := n.ModelToken()
 		r.Case(n.String())
-		c := &caseRun{r: r, ex: NewExec(), accepted: map[string][]byte{}, label: n.String()}
+		c := &caseRun{r: r, ex: NewExec(), accepted: map[string][]byte{}, removed: map[string][]byte{}, label: n.String()}
 		if out := c.op("cfg " + tok + " // " + spec); out != "ok" {
 			r.Note("cannot build " + spec)
 			continue
 		}
+		if n.Kind == "overlay" {
+			// blobs that only the LOWER layer holds: visible through the overlay, removable only by tombstone
+			for j := 0; j < 3; j++ {
+				v := rnd.Bytes(1 + rnd.Intn(40))
+				k := refOf("sha224", v)
+				if out := c.op("seedlower " + hk.Hex([]byte(k)) + " " + hk.Hex(v)); out == "ok" {
+					c.accepted[k] = v
+					r.Hit("overlay:blob-only-in-lower")
+				}
+			}
+		}
+		sortedKeys := func(m map[string][]byte) []string {
+			keys := make([]string, 0, len(m))
+			for k := range m {
+				keys = append(keys, k)
+			}
+			sort.Strings(keys)
+			return keys
+		}
 		for i := 0; i < nOffers; i++ {
+			if len(c.accepted) > 0 && rnd.Chance(10) {
+				// remove a held blob through the store: a later rejected upload under that ref must not bring it back
+				keys := sortedKeys(c.accepted)
+				k := keys[rnd.Intn(len(keys))]
+				if out := c.op("rm " + hk.Hex([]byte(k))); out == "ok" {
+					c.removed[k] = c.accepted[k]
+					delete(c.accepted, k)
+					r.Hit("removed-then-offered:removed")
+				} else {
+					r.Fail("remove-error", c.label+": remove of a held blob", "ok", out, r.CaseOps())
+				}
+			}
 			o := mkOffer(rnd)
-			if len(c.accepted) > 0 && rnd.Chance(25) {
+			if len(c.removed) > 0 && rnd.Chance(20) {
+				keys := sortedKeys(c.removed)
+				k := keys[rnd.Intn(len(keys))]
+				truth := c.removed[k]
+				if rnd.Chance(25) {
+					o = offer{key: k, truth: truth, offered: truth, kind: "true-under-removed-ref", supported: true}
+					delete(c.removed, k)
+				} else {
+					bad := append(append([]byte{}, truth...), 'y')
+					if len(truth) > 0 && rnd.Bool() {
+						bad = append([]byte{}, truth...)
+						bad[rnd.Intn(len(bad))] ^= 0x04
+					}
+					o = offer{key: k, truth: truth, offered: bad, kind: "corrupt-under-removed-ref", supported: true}
+				}
+			} else if len(c.accepted) > 0 && rnd.Chance(25) {
 				// offer OTHER bytes under a ref the store already holds: must be rejected like a first upload
 				keys := make([]string, 0, len(c.accepted))
 				for k := range c.accepted {
